@@ -180,6 +180,12 @@ JoinLines(ls, sep, nl) == IF ls = <<>> THEN ""
 Text(x) == JoinLines(x.lines, x.sep, x.nl)
 One(ts, sep) == [lines |-> <<ts>>, sep |-> sep, nl |-> FALSE]
 
+\* HugeNumber: a 5000-digit string (beyond what a careless text-to-integer conversion accepts)
+D10 == "9999999999"
+D50 == D10 \o D10 \o D10 \o D10 \o D10
+D250 == D50 \o D50 \o D50 \o D50 \o D50
+D1000 == D250 \o D250 \o D250 \o D250
+D5000 == D1000 \o D1000 \o D1000 \o D1000 \o D1000
 A64 == "aaaaaaaaaaaaaaaaaaaaaaaaaaaaaaaaaaaaaaaaaaaaaaaaaaaaaaaaaaaaaaaa"
 A63 == "aaaaaaaaaaaaaaaaaaaaaaaaaaaaaaaaaaaaaaaaaaaaaaaaaaaaaaaaaaaaaaa"
 NameTBases == [T1 |-> One(<<T("label", "www"), T("label", "example"), T("label", "")>>, "."),
@@ -203,7 +209,14 @@ ZoneBases ==
         <<T("owner", "www"), T("type", "A"), T("ip", "192.0.2.1")>>,
         <<T("owner", "mail"), T("type", "MX"), T("int", "10"), T("name", "mail")>> >>],
      \* nothing but a comment: a zone without records (and, without an origin argument, without origin)
-     Z3 |-> [sep |-> " ", nl |-> TRUE, lines |-> << <<T("comment", "; no records")>> >>]]
+     Z3 |-> [sep |-> " ", nl |-> TRUE, lines |-> << <<T("comment", "; no records")>> >>],
+     \* $GENERATE with a range, a modifier ${offset,width,base} and a plain $ (BIND 9 ARM)
+     Z4 |-> [sep |-> " ", nl |-> TRUE, lines |-> <<
+        <<T("dir", "$ORIGIN"), T("name", "example.")>>,
+        <<T("dir", "$TTL"), T("ttl", "300")>>,
+        <<T("owner", "@"), T("class", "IN"), T("type", "SOA"), T("name", "ns"), T("name", "hostmaster"),
+          T("int", "1"), T("int", "7200"), T("int", "900"), T("int", "1209600"), T("int", "300")>>,
+        <<T("dir", "$GENERATE"), T("grange", "1-3"), T("gmod", "host${0,2,d}"), T("type", "A"), T("any", "10.0.0.$")>> >>]]
 MsgTBases ==
     [X1 |-> [sep |-> " ", nl |-> TRUE, lines |-> <<
         <<T("any", "id"), T("int", "1234")>>,
@@ -244,16 +257,37 @@ TokVariant(name, s) ==
       [] name = "big32" -> "4294967296"
       [] name = "big9" -> "999999999"
       [] name = "huge" -> "99999999999999999999"
+      [] name = "huge5000" -> D5000                      \* HugeNumber
+      [] name = "hugeunit" -> D5000 \o "s"
+      [] name = "escbig9" -> s \o "\\999999999"          \*   in a \DDD... escape
+      [] name = "eschuge" -> s \o "\\" \o D5000
+      [] name = "hugetype" -> "TYPE" \o D5000
+      [] name = "hugeclass" -> "CLASS" \o D5000
+      [] name = "gr-stophuge" -> "1-" \o D5000            \*   $GENERATE range start-stop/step
+      [] name = "gr-starthuge" -> D5000 \o "-3"
+      [] name = "gr-stephuge" -> "1-3/" \o D5000
+      [] name = "gr-big9" -> "999999998-999999999"       \*   (a 9-digit range LENGTH is the caller's own work factor)
+      [] name = "gr-step9" -> "1-3/999999999"
+      [] name = "gm-offhuge" -> "host${" \o D5000 \o ",2,d}"   \*   $GENERATE modifier ${offset,width,base}
+      [] name = "gm-widthhuge" -> "host${0," \o D5000 \o ",d}"
+      [] name = "gm-off9" -> "host${999999999,2,d}"
+      [] name = "gm-width9" -> "host${0,999999999,d}"
       [] name = "altlow" -> "-100001.00m"                 \* below / above what LOC can encode
       [] name = "althigh" -> "42849673.00m"
-EscNames == {"esc0", "esc1", "esc2", "esc256", "esc999"}
+EscNames == {"esc0", "esc1", "esc2", "esc256", "esc999", "escbig9", "eschuge"}
 QuoteNames == {"emptyq", "unterm", "nlq", "popen", "pclose"}
-NumNames == {"neg1", "big32", "big9", "huge", "altlow", "althigh"}
+NumNames == {"neg1", "big32", "big9", "huge", "huge5000", "altlow", "althigh"}
+\* variants carrying a 5000-digit string: applied as the only fault of an input (pairs with
+\* them would only multiply the volume of text)
+HugeNames == {"huge5000", "hugeunit", "eschuge", "hugetype", "hugeclass", "gr-stophuge", "gr-starthuge", "gr-stephuge",
+              "gm-offhuge", "gm-widthhuge"}
 VariantsOfRole(role) ==
     CASE role = "label" -> EscNames \cup {"empty", "long"}
-      [] role = "ttl" -> EscNames \cup QuoteNames \cup {"badttl"} \cup NumNames
-      [] role = "type" -> EscNames \cup QuoteNames \cup {"bogus", "bigtype"}
-      [] role = "class" -> EscNames \cup QuoteNames \cup {"bogus", "bigclass"}
+      [] role = "ttl" -> EscNames \cup QuoteNames \cup {"badttl", "hugeunit"} \cup NumNames
+      [] role = "type" -> EscNames \cup QuoteNames \cup {"bogus", "bigtype", "hugetype"}
+      [] role = "class" -> EscNames \cup QuoteNames \cup {"bogus", "bigclass", "hugeclass"}
+      [] role = "grange" -> EscNames \cup QuoteNames \cup {"gr-stophuge", "gr-starthuge", "gr-stephuge", "gr-big9", "gr-step9"}
+      [] role = "gmod" -> EscNames \cup QuoteNames \cup {"gm-offhuge", "gm-widthhuge", "gm-off9", "gm-width9"}
       [] role = "dir" -> {"dirgarbage", "emptyq"}
       [] role \in {"any", "int"} -> EscNames \cup QuoteNames \cup NumNames
       [] OTHER -> EscNames \cup QuoteNames
@@ -285,8 +319,12 @@ BaseIds(k) == CASE k = "msg" -> DOMAIN MsgBases [] k = "namew" -> DOMAIN NameBas
 BaseLay(k, b) == CASE k = "msg" -> MsgBases[b] [] k = "namew" -> NameBases[b] [] k = "rdw" -> Spec(b, RdWire[b])
                    [] k = "optw" -> Spec(b, OptWire[b]) [] k = "namet" -> NameTBases[b] [] k = "rdt" -> RdtBase(b)
                    [] k = "ttl" -> TtlBases[b] [] k = "zone" -> ZoneBases[b] [] k = "msgt" -> MsgTBases[b]
-LayFaults(k, x) == CASE k = "msg" -> MsgFaults(x) [] k = "namew" -> NameFaults(x)
-                     [] k \in {"rdw", "optw"} -> SpecFaults(x) [] OTHER -> TextFaults(x, k)
+IsHuge(f) == f[1] = "tok" /\ f[4] \in HugeNames
+LayFaults(k, x, h) == CASE k = "msg" -> MsgFaults(x) [] k = "namew" -> NameFaults(x)
+                        [] k \in {"rdw", "optw"} -> SpecFaults(x)
+                        [] OTHER -> IF h = <<>> THEN TextFaults(x, k)
+                                    ELSE IF \E i \in 1..Len(h) : IsHuge(h[i]) THEN {}
+                                    ELSE {f \in TextFaults(x, k) : ~IsHuge(f)}
 ApplyLay(k, x, f) == CASE k = "msg" -> ApplyMsg(x, f) [] k = "namew" -> ApplyName(x, f)
                        [] k \in {"rdw", "optw"} -> ApplySpec(x, f) [] OTHER -> ApplyText(x, f)
 WireOf(k, x) == CASE k = "msg" -> MsgBytes(x) [] k = "namew" -> NameBytes(x) [] OTHER -> SpecBytes(x)
@@ -308,7 +346,7 @@ Init == /\ kind \in Kinds /\ base \in BaseIds(kind) /\ lay = BaseLay(kind, base)
         /\ post = NoPost /\ nf = 0 /\ hist = <<>>
 Budget == IF base \in PairBases THEN MaxFaults ELSE 1
 Fault == /\ post = NoPost /\ nf < Budget
-         /\ \E f \in LayFaults(kind, lay) : lay' = ApplyLay(kind, lay, f) /\ hist' = Append(hist, f)
+         /\ \E f \in LayFaults(kind, lay, hist) : lay' = ApplyLay(kind, lay, f) /\ hist' = Append(hist, f)
          /\ nf' = nf + 1 /\ UNCHANGED <<kind, base, post>>
 Cut == /\ post = NoPost /\ nf < Budget
        /\ \E f \in PostFaults(kind, lay) : post' = f /\ hist' = Append(hist, f)
@@ -355,13 +393,15 @@ SpecVerdict(h) == IF h = <<>> THEN "ok" ELSE IF \E i \in 1..Len(h) : h[i][1] = "
 FixedLine(line) == \E i \in 1..Len(line) : line[i][1] = "dir" \/ (line[i][1] = "type" /\ line[i][2] \in {"SOA", "NS", "A", "MX"})
 TokVerdict(k, role, v, last) ==
     IF role = "comment" THEN "free" ELSE      \* anything goes inside a comment
-    CASE v \in {"unterm", "nlq", "popen", "pclose", "badttl", "bogus", "bigtype", "bigclass", "long", "dirgarbage"} -> "err"
+    CASE v \in {"unterm", "nlq", "popen", "pclose", "badttl", "bogus", "bigtype", "bigclass", "long", "dirgarbage",
+                "hugetype", "hugeclass", "hugeunit", "gr-stophuge", "gr-starthuge", "gr-stephuge", "gm-offhuge", "gm-widthhuge",
+                "gm-width9"} -> "err"        \* (a 999999999-wide field fits no label)
       [] v = "empty" -> IF last THEN "free" ELSE "err"       \* "a." is a name, "a..b" is not
       [] v = "emptyq" -> IF role \in {"str", "any"} THEN "free" ELSE "err"
       [] v = "esc0" -> IF role = "label" /\ last THEN "err" ELSE "free"
-      [] v \in {"esc1", "esc2", "esc256", "esc999"} -> IF role = "any" THEN "free" ELSE "err"
+      [] v \in {"esc1", "esc2", "esc256", "esc999", "escbig9", "eschuge"} -> IF role = "any" THEN "free" ELSE "err"
       \* a TTL is a number 0 .. 2^32 - 1 (RFC 2181 section 8 caps it lower; the library documents 2^32 - 1)
-      [] v \in {"neg1", "big32", "huge", "altlow", "althigh"} -> IF role = "ttl" THEN "err" ELSE "free"
+      [] v \in {"neg1", "big32", "huge", "huge5000", "altlow", "althigh"} -> IF role = "ttl" THEN "err" ELSE "free"
       [] v = "big9" -> IF role = "ttl" THEN "ok" ELSE "free"
       [] OTHER -> "free"
 TextVerdict(k, b, h) ==
